@@ -23,3 +23,55 @@ def run(name, repo):
         return False, "lost anchor: %s" % e
     except OSError as e:
         return False, str(e)
+
+
+def _non_test(repo, rel):
+    """Masked text of a file with #[cfg(test)] modules blanked."""
+    sf = SourceFile(repo, rel)
+    mask = sf.mask
+    out = mask
+    for m in re.finditer(r"#\[cfg\(test\)\]\s*(?:pub\s+)?mod\s+\w+\s*\{", mask):
+        o = m.end() - 1
+        from extract import match_close
+        c = match_close(mask, o)
+        out = out[:m.start()] + re.sub(r"[^\n]", " ", out[m.start():c + 1]) + out[c + 1:]
+    return sf, out
+
+
+def _files(repo, sub):
+    base = os.path.join(repo, sub)
+    res = []
+    for root, _, files in os.walk(base):
+        for f in files:
+            if f.endswith(".rs"):
+                res.append(os.path.relpath(os.path.join(root, f), repo))
+    return sorted(res)
+
+
+def _fn_span(sf, mask, kind, name, container=None):
+    it = sf.find(kind, name, container)
+    return it.start, it.end
+
+
+@frame("only_lexer_next_makes_limit_errors")
+def only_lexer_next_makes_limit_errors(repo):
+    """Cursor::advance (assumed) never returns a limit error: in lexer/, `Error::limit(` and
+    `LimitExceeded` occur only inside Lexer::next / Error::limit."""
+    hits = []
+    for rel in _files(repo, "crates/apollo-parser/src/lexer"):
+        sf, mask = _non_test(repo, rel)
+        for m in re.finditer(r"Error::limit\s*\(|LimitExceeded", mask):
+            ok = False
+            if rel.endswith("lexer/mod.rs"):
+                a, b = _fn_span(sf, mask, "fn", "next", r"Iterator for Lexer<'a>")
+                ok = a <= m.start() < b
+            if not ok:
+                hits.append("%s@%d" % (rel, mask.count("\n", 0, m.start()) + 1))
+    sf, mask = _non_test(repo, "crates/apollo-parser/src/error.rs")
+    n = len(re.findall(r"ErrorData::LimitExceeded", mask))
+    # constructed once in Error::limit, matched in is_limit; Self::LimitExceeded in len/Display
+    a, b = _fn_span(sf, mask, "fn", "limit", "Error")
+    constructed_elsewhere = [m.start() for m in re.finditer(r"data\s*:\s*ErrorData::LimitExceeded", mask) if not (a <= m.start() < b)]
+    if hits or constructed_elsewhere:
+        return False, "limit errors are created outside Lexer::next: %s %s" % (hits, constructed_elsewhere)
+    return True, "lexer/: Error::limit only in Lexer::next; ErrorData::LimitExceeded only constructed in Error::limit"
